@@ -551,16 +551,17 @@ static Token *subst(Token *tok, MacroArg *args, bool is_objlike) {
 
     // [GNU] If __VA_ARG__ is empty, `,##__VA_ARGS__` is expanded
     // to the empty token list. Otherwise, its expaned to `,` and
-    // __VA_ARGS__.
+    // __VA_ARGS__. Being an operand of ##, __VA_ARGS__ is inserted
+    // as written, not macro-expanded first.
     if (equal(tok, ",") && equal(tok->next, "##")) {
       MacroArg *arg = find_arg(args, tok->next->next);
       if (arg && arg->is_va_args) {
-        if (arg->tok->kind == TK_EOF) {
-          tok = tok->next->next->next;
-        } else {
+        if (arg->tok->kind != TK_EOF) {
           cur = cur->next = copy_token(tok);
-          tok = tok->next->next;
+          for (Token *t = arg->tok; t->kind != TK_EOF; t = t->next)
+            cur = cur->next = copy_token(t);
         }
+        tok = tok->next->next->next;
         continue;
       }
     }
